@@ -201,6 +201,29 @@ theorem Inv_setImmediate (cfg : Cfg) (σ : State) (s : Sid) (h : Inv cfg σ) : I
   · exact h.1 s
   · rfl
 
+theorem Inv_prepFlush (cfg : Cfg) (σ : State) (s : Sid) (h : Inv cfg σ) : Inv cfg (prepFlush σ s) := by
+  refine Inv_withSess cfg σ s _ h ?_ ?_
+  · exact h.1 s
+  · rfl
+
+theorem Inv_addQ (cfg : Cfg) (σ : State) (s : Sid) (a : Attr) (v : Val) (fu : Bool) (l : List Obj) (h : Inv cfg σ) :
+    Inv cfg (addQ σ s a v fu l) := by
+  refine Inv_withSess cfg σ s _ h ?_ ?_
+  · exact h.1 s
+  · rfl
+
+theorem Inv_storeQ (cfg : Cfg) (σ : State) (s : Sid) (a : Attr) (v : Val) (fu : Bool) (l : List Obj) (h : Inv cfg σ) :
+    Inv cfg (storeQ σ s a v fu l) := by
+  unfold storeQ; split
+  · exact h
+  · exact Inv_addQ cfg σ s a v fu l h
+
+theorem storeQ_facts (σ : State) (s : Sid) (a : Attr) (v : Val) (fu : Bool) (l : List Obj) :
+    (storeQ σ s a v fu l).store = σ.store ∧ ((storeQ σ s a v fu l).sess s).objs = (σ.sess s).objs := by
+  unfold storeQ; split
+  · exact ⟨rfl, rfl⟩
+  · simp [addQ, State.withSess]
+
 theorem Inv_wake (cfg : Cfg) (σ : State) (s : Sid) (h : Inv cfg σ) : Inv cfg (wake σ s) := by
   refine Inv_withSess cfg σ s _ h ?_ ?_
   · exact h.1 s
@@ -302,7 +325,7 @@ theorem Inv_commitTxn (cfg : Cfg) (σ : State) (s : Sid) (h : Inv cfg σ) : Inv 
   unfold commitTxn
   simp only
   have hs := h.1 s
-  have hss : SessInv cfg { σ.sess s with inTxn := false, pend := [], forUpd := fun _ => false, immediate := true } := by
+  have hss : SessInv cfg { σ.sess s with inTxn := false, pend := [], forUpd := fun _ => false, immediate := true, qcache := [] } := by
     refine ⟨hs.1, fun _ => rfl, ?_⟩
     intro o a hl; simp [lookupPend] at hl
   cases hi : (σ.sess s).inTxn with
@@ -341,23 +364,23 @@ theorem Inv_saveHead (cfg : Cfg) (σ : State) (s : Sid) (o : Obj) (rest : List O
       · subst ho; simpa [ObjSt.afterSave] using this
       · simpa [upd_other _ _ _ _ ho] using this
   · simp only [hw]
-    have h1 : Inv cfg (ensureTxn (setImmediate σ s) s).1 := Inv_ensureTxn cfg _ s (Inv_setImmediate cfg σ s h)
-    by_cases hb : (ensureTxn (setImmediate σ s) s).2 = true
+    have h1 : Inv cfg (ensureTxn (prepFlush σ s) s).1 := Inv_ensureTxn cfg _ s (Inv_prepFlush cfg σ s h)
+    by_cases hb : (ensureTxn (prepFlush σ s) s).2 = true
     · simp only [hb, Bool.not_true, Bool.false_eq_true, if_false]
-      generalize critCols cfg s (((ensureTxn (setImmediate σ s) s).1.sess s).forUpd o) ((σ.sess s).objs o) = cols
+      generalize critCols cfg s (((ensureTxn (prepFlush σ s) s).1.sess s).forUpd o) ((σ.sess s).objs o) = cols
       by_cases hk : keyMissing ((σ.sess s).objs o) cols (wAttrs cfg ((σ.sess s).objs o)) = true
       · simp only [hk, if_true]; exact Inv_failSess cfg _ s h1
       · simp only [hk]
-        by_cases hall : whereOk (ensureTxn (setImmediate σ s) s).1 s o ((σ.sess s).objs o) cols = true
+        by_cases hall : whereOk (ensureTxn (prepFlush σ s) s).1 s o ((σ.sess s).objs o) cols = true
         · simp only [hall, if_true]
           -- applied
-          have himm : ((setImmediate σ s).sess s).immediate = true := by simp [setImmediate, State.withSess]
-          have hin := ensureTxn_inTxn (setImmediate σ s) s himm hb
-          have he := ensureTxn_sess (setImmediate σ s) s
+          have himm : ((prepFlush σ s).sess s).immediate = true := by simp [prepFlush, State.withSess]
+          have hin := ensureTxn_inTxn (prepFlush σ s) s himm hb
+          have he := ensureTxn_sess (prepFlush σ s) s
           refine Inv_withSess cfg _ s _ h1 ?_ (by simp [hin])
           have hs := h1.1 s
-          have hobjs : (σ.sess s).objs = ((ensureTxn (setImmediate σ s) s).1.sess s).objs := by
-            rw [he.1]; simp [setImmediate, State.withSess]
+          have hobjs : (σ.sess s).objs = ((ensureTxn (prepFlush σ s) s).1.sess s).objs := by
+            rw [he.1]; simp [prepFlush, State.withSess]
           refine ⟨fun o' => ?_, by simp [hin], ?_⟩
           · by_cases ho : o' = o
             · subst ho
@@ -522,11 +545,13 @@ theorem Inv_fetchRows (cfg : Cfg) (s : Sid) (as : List Attr) (fu : Bool) (l : Li
 theorem Inv_selectInDb (cfg : Cfg) (s : Sid) (a : Attr) (v : Val) (fu : Bool) (σ1 : State) (h : Inv cfg σ1) :
     Inv cfg (selectInDb cfg s a v fu σ1).1 := by
   unfold selectInDb
-  simp only
   split
-  · exact Inv_failSess cfg σ1 s h
-  · rename_i σ2 hf
-    exact Inv_markRows cfg s a _ σ2 (Inv_fetchRows cfg s _ fu _ σ1 σ2 hf h)
+  · exact h
+  · simp only
+    split
+    · exact Inv_failSess cfg σ1 s h
+    · rename_i σ2 hf
+      exact Inv_storeQ cfg _ s a v fu _ (Inv_markRows cfg s a _ σ2 (Inv_fetchRows cfg s _ fu _ σ1 σ2 hf h))
 
 theorem Inv_step (cfg : Cfg) (σ : State) (s : Sid) (act : Action) (h : Inv cfg σ) : Inv cfg (step cfg σ s act).1 := by
   cases act with
@@ -626,6 +651,12 @@ theorem setImmediate_sess (σ : State) (s : Sid) :
     ∧ (setImmediate σ s).store = σ.store := by
   simp [setImmediate, State.withSess]
 
+theorem prepFlush_sess (σ : State) (s : Sid) :
+    ((prepFlush σ s).sess s).objs = (σ.sess s).objs ∧ ((prepFlush σ s).sess s).pend = (σ.sess s).pend
+    ∧ ((prepFlush σ s).sess s).forUpd = (σ.sess s).forUpd ∧ ((prepFlush σ s).sess s).toSave = (σ.sess s).toSave
+    ∧ (prepFlush σ s).store = σ.store := by
+  simp [prepFlush, State.withSess]
+
 theorem setImmIf_sess (σ : State) (s : Sid) (imm : Bool) :
     ((setImmIf σ s imm).sess s).objs = (σ.sess s).objs ∧ ((setImmIf σ s imm).sess s).pend = (σ.sess s).pend
     ∧ ((setImmIf σ s imm).sess s).forUpd = (σ.sess s).forUpd ∧ ((setImmIf σ s imm).sess s).toSave = (σ.sess s).toSave
@@ -643,9 +674,9 @@ theorem view_congr (σ σ' : State) (s : Sid) (o : Obj) (a : Attr) (hp : (σ'.se
   simp [view, hp, hs]
 
 theorem view_prep (σ : State) (s : Sid) (o : Obj) (a : Attr) :
-    view (ensureTxn (setImmediate σ s) s).1 s o a = view σ s o a := by
-  have he := ensureTxn_sess (setImmediate σ s) s
-  have hi := setImmediate_sess σ s
+    view (ensureTxn (prepFlush σ s) s).1 s o a = view σ s o a := by
+  have he := ensureTxn_sess (prepFlush σ s) s
+  have hi := prepFlush_sess σ s
   exact view_congr _ _ s o a (by rw [he.2.1, hi.2.1]) (by rw [he.2.2.2.2, hi.2.2.2.2])
 
 /-- the WHERE clause Pony generated was true of the row its connection saw -/
@@ -653,11 +684,11 @@ def WhereHeld (cfg : Cfg) (σ : State) (s : Sid) (o : Obj) : Prop :=
   ∀ a, a ∈ cfg.attrs → cfg.sessOpt s = true → (σ.sess s).forUpd o = false →
     ((σ.sess s).objs o).rbits a = true → cfg.attrOpt a = true → ((σ.sess s).objs o).dbvals a = some (view σ s o a)
 
-theorem forUpd_prep (σ : State) (s : Sid) : ((ensureTxn (setImmediate σ s) s).1.sess s).forUpd = (σ.sess s).forUpd := by
-  rw [(ensureTxn_sess _ s).2.2.1, (setImmediate_sess σ s).2.2.1]
+theorem forUpd_prep (σ : State) (s : Sid) : ((ensureTxn (prepFlush σ s) s).1.sess s).forUpd = (σ.sess s).forUpd := by
+  rw [(ensureTxn_sess _ s).2.2.1, (prepFlush_sess σ s).2.2.1]
 
-theorem store_prep (σ : State) (s : Sid) : (ensureTxn (setImmediate σ s) s).1.store = σ.store := by
-  rw [(ensureTxn_sess _ s).2.2.2.2, (setImmediate_sess σ s).2.2.2.2]
+theorem store_prep (σ : State) (s : Sid) : (ensureTxn (prepFlush σ s) s).1.store = σ.store := by
+  rw [(ensureTxn_sess _ s).2.2.2.2, (prepFlush_sess σ s).2.2.2.2]
 
 theorem saveHead_applied (cfg : Cfg) (σ : State) (s : Sid) (o' : Obj) (rest : List Obj) (done : Res) (o : Obj)
     (h : (saveHead cfg σ s o' rest done).2.upd = some o) : o' = o ∧ WhereHeld cfg σ s o := by
@@ -666,14 +697,14 @@ theorem saveHead_applied (cfg : Cfg) (σ : State) (s : Sid) (o' : Obj) (rest : L
   by_cases hw : (wAttrs cfg ((σ.sess s).objs o')).isEmpty = true
   · simp [hw] at h
   · simp only [hw] at h
-    by_cases hb : (ensureTxn (setImmediate σ s) s).2 = true
+    by_cases hb : (ensureTxn (prepFlush σ s) s).2 = true
     · simp only [hb, Bool.not_true, Bool.false_eq_true, if_false] at h
       rw [forUpd_prep] at h
       by_cases hk : keyMissing ((σ.sess s).objs o') (critCols cfg s ((σ.sess s).forUpd o') ((σ.sess s).objs o'))
           (wAttrs cfg ((σ.sess s).objs o')) = true
       · simp [hk] at h
       · simp only [hk] at h
-        by_cases hall : whereOk (ensureTxn (setImmediate σ s) s).1 s o' ((σ.sess s).objs o')
+        by_cases hall : whereOk (ensureTxn (prepFlush σ s) s).1 s o' ((σ.sess s).objs o')
             (critCols cfg s ((σ.sess s).forUpd o') ((σ.sess s).objs o')) = true
         · simp only [hall, if_true] at h
           have ho : o' = o := Option.some.inj h
@@ -697,13 +728,13 @@ theorem saveHead_store (cfg : Cfg) (σ : State) (s : Sid) (o : Obj) (rest : List
   by_cases hw : (wAttrs cfg ((σ.sess s).objs o)).isEmpty = true
   · simp only [hw, if_true]; rfl
   · simp only [hw]
-    by_cases hb : (ensureTxn (setImmediate σ s) s).2 = true
+    by_cases hb : (ensureTxn (prepFlush σ s) s).2 = true
     · simp only [hb, Bool.not_true, Bool.false_eq_true, if_false]
-      generalize critCols cfg s (((ensureTxn (setImmediate σ s) s).1.sess s).forUpd o) ((σ.sess s).objs o) = cols
+      generalize critCols cfg s (((ensureTxn (prepFlush σ s) s).1.sess s).forUpd o) ((σ.sess s).objs o) = cols
       by_cases hk : keyMissing ((σ.sess s).objs o) cols (wAttrs cfg ((σ.sess s).objs o)) = true
       · simp only [hk, if_true]; simpa [failSess] using hst
       · simp only [hk]
-        by_cases hall : whereOk (ensureTxn (setImmediate σ s) s).1 s o ((σ.sess s).objs o) cols = true
+        by_cases hall : whereOk (ensureTxn (prepFlush σ s) s).1 s o ((σ.sess s).objs o) cols = true
         · simp only [hall, if_true]; simpa [State.withSess] using hst
         · simp only [hall]; simpa [failSess] using hst
     · simp only [hb]; simpa using hst
@@ -720,13 +751,13 @@ theorem saveHead_failed (cfg : Cfg) (σ : State) (s : Sid) (o : Obj) (rest : Lis
   by_cases hw : (wAttrs cfg ((σ.sess s).objs o)).isEmpty = true
   · simp [hw, hd] at h
   · simp only [hw] at h ⊢
-    by_cases hb : (ensureTxn (setImmediate σ s) s).2 = true
+    by_cases hb : (ensureTxn (prepFlush σ s) s).2 = true
     · simp only [hb, Bool.not_true, Bool.false_eq_true, if_false] at h ⊢
-      generalize critCols cfg s (((ensureTxn (setImmediate σ s) s).1.sess s).forUpd o) ((σ.sess s).objs o) = cols at h ⊢
+      generalize critCols cfg s (((ensureTxn (prepFlush σ s) s).1.sess s).forUpd o) ((σ.sess s).objs o) = cols at h ⊢
       by_cases hk : keyMissing ((σ.sess s).objs o) cols (wAttrs cfg ((σ.sess s).objs o)) = true
       · simp only [hk, if_true]; exact ⟨failSess_sess cfg _ s, trivial⟩
       · simp only [hk] at h ⊢
-        by_cases hall : whereOk (ensureTxn (setImmediate σ s) s).1 s o ((σ.sess s).objs o) cols = true
+        by_cases hall : whereOk (ensureTxn (prepFlush σ s) s).1 s o ((σ.sess s).objs o) cols = true
         · simp [hall, hd] at h
         · simp only [hall, Bool.false_eq_true, if_false]; exact ⟨failSess_sess cfg _ s, trivial⟩
     · simp [hb, Res.failed] at h
@@ -759,11 +790,11 @@ theorem saveHead_no_keyError (cfg : Cfg) (σ : State) (s : Sid) (o : Obj) (rest 
   by_cases hw : (wAttrs cfg ((σ.sess s).objs o)).isEmpty = true
   · simp only [hw, if_true]; exact hd
   · simp only [hw]
-    by_cases hb : (ensureTxn (setImmediate σ s) s).2 = true
+    by_cases hb : (ensureTxn (prepFlush σ s) s).2 = true
     · simp only [hb, Bool.not_true, Bool.false_eq_true, if_false]
       simp only [keyMissing_false cfg _ s _ hO, Bool.false_eq_true, if_false]
-      by_cases hall : whereOk (ensureTxn (setImmediate σ s) s).1 s o ((σ.sess s).objs o)
-          (critCols cfg s (((ensureTxn (setImmediate σ s) s).1.sess s).forUpd o) ((σ.sess s).objs o)) = true
+      by_cases hall : whereOk (ensureTxn (prepFlush σ s) s).1 s o ((σ.sess s).objs o)
+          (critCols cfg s (((ensureTxn (prepFlush σ s) s).1.sess s).forUpd o) ((σ.sess s).objs o)) = true
       · simp only [hall, if_true]; exact hd
       · simp only [hall]; simp
     · simp [hb]
@@ -783,11 +814,11 @@ theorem saveHead_refused (cfg : Cfg) (σ : State) (s : Sid) (o : Obj) (rest : Li
     | nil => exact absurd hl hw
     | cons _ _ => rfl
   simp only [hwe, Bool.false_eq_true, if_false]
-  by_cases hb : (ensureTxn (setImmediate σ s) s).2 = true
+  by_cases hb : (ensureTxn (prepFlush σ s) s).2 = true
   · simp only [hb, Bool.not_true, Bool.false_eq_true, if_false]
     simp only [keyMissing_false cfg _ s _ hO, Bool.false_eq_true, if_false]
-    have hall : whereOk (ensureTxn (setImmediate σ s) s).1 s o ((σ.sess s).objs o)
-        (critCols cfg s (((ensureTxn (setImmediate σ s) s).1.sess s).forUpd o) ((σ.sess s).objs o)) = false := by
+    have hall : whereOk (ensureTxn (prepFlush σ s) s).1 s o ((σ.sess s).objs o)
+        (critCols cfg s (((ensureTxn (prepFlush σ s) s).1.sess s).forUpd o) ((σ.sess s).objs o)) = false := by
       rw [forUpd_prep]
       simp only [whereOk, critCols, hopt, hfu, Bool.not_false, Bool.and_self, if_true]
       rw [List.all_eq_false]
@@ -893,11 +924,14 @@ theorem selectInDb_facts (cfg : Cfg) (s : Sid) (a : Attr) (v : Val) (fu : Bool) 
     (selectInDb cfg s a v fu σ1).2.upd = none ∧ (selectInDb cfg s a v fu σ1).1.store = σ1.store
     ∧ ((selectInDb cfg s a v fu σ1).2.res.failed = true → (selectInDb cfg s a v fu σ1).1.sess s = Sess.fresh cfg s) := by
   unfold selectInDb
-  simp only
   split
-  · exact ⟨rfl, rfl, fun _ => by simp [failSess]⟩
-  · rename_i σ2 hf
-    exact ⟨rfl, (markRows_store cfg s a _ σ2).trans (fetchRows_store s _ fu _ σ1 σ2 hf), fun h => by simp [Res.failed] at h⟩
+  · exact ⟨rfl, rfl, fun h => by simp [Res.failed] at h⟩
+  · simp only
+    split
+    · exact ⟨rfl, rfl, fun _ => by simp [failSess]⟩
+    · rename_i σ2 hf
+      refine ⟨rfl, ?_, fun h => by simp [Res.failed] at h⟩
+      exact ((storeQ_facts _ s a v fu _).1.trans (markRows_store cfg s a _ σ2)).trans (fetchRows_store s _ fu _ σ1 σ2 hf)
 
 theorem step_applied (cfg : Cfg) (σ : State) (s : Sid) (act : Action) (o : Obj)
     (h : (step cfg σ s act).2.upd = some o) : (∃ rest, (σ.sess s).toSave = o :: rest) ∧ WhereHeld cfg σ s o := by
@@ -1171,13 +1205,13 @@ theorem saveHead_res (cfg : Cfg) (σ : State) (s : Sid) (o : Obj) (rest : List O
   by_cases hw : (wAttrs cfg ((σ.sess s).objs o)).isEmpty = true
   · simp [hw]
   · simp only [hw]
-    by_cases hb : (ensureTxn (setImmediate σ s) s).2 = true
+    by_cases hb : (ensureTxn (prepFlush σ s) s).2 = true
     · simp only [hb, Bool.not_true, Bool.false_eq_true, if_false]
-      generalize critCols cfg s (((ensureTxn (setImmediate σ s) s).1.sess s).forUpd o) ((σ.sess s).objs o) = cols
+      generalize critCols cfg s (((ensureTxn (prepFlush σ s) s).1.sess s).forUpd o) ((σ.sess s).objs o) = cols
       by_cases hk : keyMissing ((σ.sess s).objs o) cols (wAttrs cfg ((σ.sess s).objs o)) = true
       · simp [hk]
       · simp only [hk]
-        by_cases hall : whereOk (ensureTxn (setImmediate σ s) s).1 s o ((σ.sess s).objs o) cols = true
+        by_cases hall : whereOk (ensureTxn (prepFlush σ s) s).1 s o ((σ.sess s).objs o) cols = true
         · simp [hall]
         · simp [hall]
     · simp [hb]
@@ -1459,11 +1493,28 @@ theorem markRows_obs (cfg : Cfg) (s : Sid) (o : Obj) (a : Attr) (v : Val) (hvol 
       · exact Or.inl h
     · exact Or.inr (hm.2 (Or.inr h))
 
+theorem ensureTxn_qcache (σ : State) (s : Sid) : ((ensureTxn σ s).1.sess s).qcache = (σ.sess s).qcache := by
+  unfold ensureTxn
+  simp only
+  by_cases hc : ((σ.sess s).immediate && !(σ.sess s).inTxn) = true
+  · simp only [hc, if_true]
+    by_cases hp : (σ.preLock.isSome && σ.preLock != some s) = true
+    · simp [hp]
+    · simp only [hp]
+      cases hl : σ.lock <;> simp
+  · simp [hc]
+
+theorem prep_qcache (σ : State) (s : Sid) (fu : Bool) :
+    ((ensureTxn (setImmIf (wake σ s) s fu) s).1.sess s).qcache = (σ.sess s).qcache := by
+  rw [ensureTxn_qcache]
+  cases fu <;> simp [setImmIf, setImmediate, wake, State.withSess]
+
 /-- every object a criterion query returns (each row the connection sees with `a = v`) gets `v` recorded as the observation
     of `a`, provided the session holds no unflushed assignment to it -/
 theorem select_obs (cfg : Cfg) (σ : State) (s : Sid) (a : Attr) (v : Val) (fu : Bool) (m : Option Val) (o : Obj)
     (hi : Inv cfg σ) (h : (step cfg σ s (.select a v fu)).2.res = .ok m) (ho : o ∈ cfg.objs) (hview : view σ s o a = v)
-    (hw : ((σ.sess s).objs o).wbits a = false) (hvol : cfg.volatile a = false) (ha : a ∈ cfg.attrs) :
+    (hw : ((σ.sess s).objs o).wbits a = false) (hvol : cfg.volatile a = false) (ha : a ∈ cfg.attrs)
+    (hmiss : cachedQ (σ.sess s) a v fu = none) :
     (((step cfg σ s (.select a v fu)).1.sess s).objs o).obs a = some v := by
   simp only [step] at h ⊢
   have hq := query_ok cfg _ s fu _ _ h
@@ -1483,14 +1534,17 @@ theorem select_obs (cfg : Cfg) (σ : State) (s : Sid) (a : Attr) (v : Val) (fu :
     rw [view_congr σ σ1 s o a (by rw [← hσ1, he.2.1, hs.2.1, hk.2.1]) (by rw [← hσ1, he.2.2.2.2, hs.2.2.2.2, hk.2.2.2.2])]
     exact hview
   have hw1 : ((σ1.sess s).objs o).wbits a = false := by rw [hobjs]; exact hw
+  have hmiss1 : cachedQ (σ1.sess s) a v fu = none := by
+    unfold cachedQ at hmiss ⊢; rw [← hσ1, prep_qcache]; exact hmiss
   unfold selectInDb at h ⊢
-  simp only at h ⊢
+  simp only [hmiss1] at h ⊢
   split
   · rename_i hf; simp [hf] at h
   · rename_i σ2 hf
     have hmem : o ∈ cfg.objs.filter (fun o => view σ1 s o a == v) := List.mem_filter.mpr ⟨ho, by simp [hview1]⟩
     have hsel : a ∈ selAttrs cfg a := List.mem_filter.mpr ⟨ha, by simp⟩
     have h2 := fetchRows_val cfg s _ fu o a v hsel _ σ1 σ2 hf hi1 hw1 hview1 (Or.inl hmem)
-    exact markRows_obs cfg s o a v hvol _ σ2 h2.1 h2.2 (Or.inl hmem)
+    have := markRows_obs cfg s o a v hvol _ σ2 h2.1 h2.2 (Or.inl hmem)
+    rw [(storeQ_facts _ s a v fu _).2]; exact this
 
 end PonyVerif.Model.Occ
